@@ -1278,3 +1278,127 @@ Proof.
     pose proof (le_lor_1 fv). lia.
   - apply nth_error_Some_lt in Hs. apply nth_error_None in Ef. lia.
 Qed.
+
+(* ------------------------------------------------------------------ the whole history against the reference model's own run *)
+
+Lemma spec_equiv_sym s1 s2 : spec_equiv s1 s2 -> spec_equiv s2 s1.
+Proof.
+  intros [A [B C]]. split; [intros k; symmetry; apply A|]. split; [congruence|].
+  intros k Hk. symmetry. apply C. apply A. exact Hk.
+Qed.
+
+Lemma spec_equiv_trans s1 s2 s3 : spec_equiv s1 s2 -> spec_equiv s2 s3 -> spec_equiv s1 s3.
+Proof.
+  intros [A1 [B1 C1]] [A2 [B2 C2]]. split; [intros k; rewrite A1; apply A2|]. split; [congruence|].
+  intros k Hk. rewrite (C1 k Hk). apply C2. apply A1. exact Hk.
+Qed.
+
+Lemma find_none_iff {A} (f : A -> bool) l : find f l = None <-> forall x, In x l -> f x = false.
+Proof.
+  split; [intros H x Hx; eapply find_none; eauto|].
+  induction l as [|a r IH]; intros H; simpl; [reflexivity|].
+  rewrite (H a (or_introl eq_refl)). apply IH. intros x Hx. apply H. right. exact Hx.
+Qed.
+
+Lemma detached_congr s1 s2 c : spec_equiv s1 s2 -> detached s1 c -> detached s2 c.
+Proof.
+  intros [A [_ C]] H. unfold detached, spec_parent in *. rewrite find_none_iff in *.
+  intros p Hp. apply A in Hp. rewrite <- (C p Hp). apply H. exact Hp.
+Qed.
+
+Lemma pre_congr s1 s2 o : spec_equiv s1 s2 -> pre s1 o -> pre s2 o.
+Proof.
+  intros E P. pose proof E as [A [_ C]]. unfold spec_live in *.
+  destruct o; cbn [pre] in *; auto.
+  - destruct P as [Hn Hc]. split; [exact Hn|]. intros c Hin. destruct (Hc c Hin) as [H1 H2].
+    split; [apply A; exact H1 | eapply detached_congr; eauto].
+  - destruct P as [H1 [H2 H3]]. split; [apply A; exact H1|]. split; [apply A; exact H2 | eapply detached_congr; eauto].
+  - destruct P as [H1 [H2 H3]]. split; [apply A; exact H1|]. split; [apply A; exact H2 | eapply detached_congr; eauto].
+  - destruct P as [H1 [H2 H3]]. split; [apply A; exact H1|]. split; [exact H2|]. intros c Hc. apply A. apply H3. exact Hc.
+  - destruct P as [H1 H2]. split; [apply A; exact H1|]. rewrite <- (C p H1). exact H2.
+  - apply A. exact P.
+  - destruct P as [H1 [H2 H3]]. split; [apply A; exact H1|]. split; [exact H2|]. rewrite <- (C p H1). exact H3.
+  - destruct P as [H1 [H2 H3]]. split; [apply A; exact H1|]. split; [apply A; exact H2 | eapply detached_congr; eauto].
+  - apply A. exact P.
+  - apply A. exact P.
+Qed.
+
+(* equivalent states with the same updated list for p *)
+Lemma equiv_kupd s1 s2 p l : spec_equiv s1 s2 ->
+  spec_equiv (mkSpec (live s1) (kupd (kids s1) p l)) (mkSpec (live s2) (kupd (kids s2) p l)).
+Proof.
+  intros [A [B C]]. split; [exact A|]. split; [exact B|]. intros k Hk. cbn [live kids] in *. unfold kupd.
+  destruct (key_eqb k p); [reflexivity | apply C; exact Hk].
+Qed.
+
+Lemma equiv_snoc s1 s2 k l : spec_equiv s1 s2 ->
+  spec_equiv (mkSpec (live s1 ++ [k]) (kupd (kids s1) k l)) (mkSpec (live s2 ++ [k]) (kupd (kids s2) k l)).
+Proof.
+  intros [A [B C]]. cbn [live kids]. split; [|split].
+  - intros x. cbn [live]. rewrite !in_app_iff, A. tauto.
+  - cbn [live]. rewrite !app_length, B. reflexivity.
+  - intros x Hx. cbn [live kids] in *. unfold kupd. destruct (key_eqb_spec x k) as [->|Hne]; [reflexivity|].
+    apply C. apply in_app_or in Hx. destruct Hx as [Hx|[Hx|[]]]; [exact Hx | congruence].
+Qed.
+
+Lemma spec_step_congr s1 s2 o k : spec_equiv s1 s2 -> NoDup (live s1) -> NoDup (live s2) -> pre s1 o ->
+  spec_equiv (fst (spec_step s1 o k)) (fst (spec_step s2 o k)) /\ snd (spec_step s1 o k) = snd (spec_step s2 o k).
+Proof.
+  intros E N1 N2 P. pose proof E as [A [B C]]. unfold spec_live in *.
+  destruct o; cbn [pre spec_step] in *.
+  - split; [apply equiv_snoc; exact E | reflexivity].
+  - split; [apply equiv_snoc; exact E | reflexivity].
+  - split; [apply equiv_snoc; exact E | reflexivity].
+  - destruct P as [Hp _]. rewrite <- (C p Hp). split; [apply equiv_kupd; exact E | reflexivity].
+  - destruct P as [Hp _]. rewrite <- (C p Hp). destruct (N.ltb (N.of_nat (length (kids s1 p))) i).
+    + split; [exact E | reflexivity].
+    + split; [apply equiv_kupd; exact E | reflexivity].
+  - split; [|reflexivity]. cbn [fst]. split; [exact A|]. split; [exact B|]. intros q Hq. cbn [live kids] in *.
+    destruct (key_eqb q p); [reflexivity|]. rewrite (C q Hq). reflexivity.
+  - destruct P as [Hp _]. rewrite <- (C p Hp). split; [apply equiv_kupd; exact E | reflexivity].
+  - rewrite <- (C p P). destruct (N.leb (N.of_nat (length (kids s1 p))) i); [split; [exact E | reflexivity]|].
+    destruct (nth_error (kids s1 p) (N.to_nat i)); [|split; [exact E | reflexivity]].
+    split; [apply equiv_kupd; exact E | reflexivity].
+  - destruct P as [Hp _]. rewrite <- (C p Hp). split; [apply equiv_kupd; exact E | reflexivity].
+  - destruct P as [Hp _]. rewrite <- (C p Hp). destruct (N.leb (N.of_nat (length (kids s1 p))) i); [split; [exact E | reflexivity]|].
+    destruct (nth_error (kids s1 p) (N.to_nat i)); [|split; [exact E | reflexivity]].
+    split; [apply equiv_kupd; exact E | reflexivity].
+  - split; [|reflexivity]. cbn [fst].
+    assert (M : forall x, In x (filter (fun x => negb (key_eqb x n)) (live s1)) <-> In x (filter (fun x => negb (key_eqb x n)) (live s2))).
+    { intros x. rewrite !filter_In, A. tauto. }
+    split; [exact M|]. split.
+    + apply NoDup_same_length; [apply NoDup_filter; exact N1 | apply NoDup_filter; exact N2 | exact M].
+    + intros q Hq. cbn [live kids] in *. apply filter_In in Hq. rewrite (C q (proj1 Hq)). reflexivity.
+  - split; [|reflexivity]. cbn [fst]. split; [tauto|]. split; [reflexivity|]. intros q [].
+  - split; [exact E | reflexivity].
+Qed.
+
+Lemma spec_step_NoDup s o k : NoDup (live s) -> ~ In k (live s) -> NoDup (live (fst (spec_step s o k))).
+Proof.
+  intros N F. destruct o; cbn [spec_step]; cbn [fst live]; try exact N; try (apply NoDup_snoc; assumption).
+  - destruct (N.ltb _ _); exact N.
+  - destruct (N.leb _ _); [exact N|]. destruct (nth_error _ _); exact N.
+  - destruct (N.leb _ _); [exact N|]. destruct (nth_error _ _); exact N.
+  - apply NoDup_filter. exact N.
+  - constructor.
+Qed.
+
+Theorem history_spec os : forall t s acc, WF t -> spec_equiv (abs t) s -> NoDup (live s) ->
+  spec_pre_run s os (run_keys t os) ->
+  exists t' outs, run_acc (Ok (t, acc)) os = Ok (t', acc ++ outs) /\ WF t' /\
+                  spec_equiv (abs t') (fst (spec_run s os (run_keys t os))) /\
+                  outs = snd (spec_run s os (run_keys t os)).
+Proof.
+  induction os as [|o r IH]; intros t s acc W E N P.
+  - exists t, []. rewrite app_nil_r. split; [reflexivity|]. split; [exact W|]. split; [exact E | reflexivity].
+  - cbn [run_keys spec_pre_run] in P. destruct P as [P0 P1].
+    assert (Pc : pre (abs t) o) by (eapply pre_congr; [apply spec_equiv_sym; exact E | exact P0]).
+    destruct (refines_all t o W Pc) as [[t1 [out [Hs [W1 [He Ho]]]]] Hf].
+    destruct (spec_step_congr (abs t) s o (next_key t) E (sm_keys_NoDup _) N Pc) as [Ec Eo].
+    assert (Hfs : ~ In (next_key t) (live s)) by (intros H; apply Hf; apply E; exact H).
+    cbn [run_keys spec_run]. rewrite Hs in *.
+    destruct (IH t1 (fst (spec_step s o (next_key t))) (acc ++ [out]) W1
+                 (spec_equiv_trans _ _ _ He Ec) (spec_step_NoDup s o _ N Hfs) P1) as [t' [outs [Hr [W' [E' O']]]]].
+    exists t', (out :: outs). rewrite run_acc_cons, Hs, Hr. rewrite <- app_assoc. cbn [fst snd].
+    split; [reflexivity|]. split; [exact W'|]. split; [exact E'|]. rewrite O', Ho, Eo. reflexivity.
+Qed.
